@@ -71,3 +71,9 @@ Theorem C03_source_mask_flow mp : Pipeline.translation_failed = false /\ gen_ref
   gen_ref_apply_params_ok = true /\ gen_block_flow_ok = true.
 Proof. destruct (pipeline_tied0 mp) as (A & _ & (B & C) & (_ & _ & _ & D & _ & _ & E & _)). repeat split; assumption. Qed.
 Print Assumptions C03_source_no_invented_pixels.
+(* ---- the block normalisation is computed for every block with at least one jointly valid pixel - the zero model (which makes every gain infinite and the block invalid) only when there is none *)
+From HVgen Require Import Formulas.
+From HV Require Import Tie.FormulaTie.
+Theorem C03_source_block_norm : gen_block_norm_ok = true.
+Proof. exact tie_block_norm. Qed.
+Print Assumptions C03_source_block_norm.
